@@ -136,14 +136,17 @@ def go_rules(bothint=1):
     r.add("R9.vop_mul", r"\bc_lhs \* c_rhs\b", "VOP(mul, c_lhs, c_rhs)", min_fire=1)
     r.add("R9.vop_div", r"\bc_lhs / c_rhs\b", "VOPD(div, c_lhs, c_rhs)", min_fire=1)
     r.add("R9.vop_rem", r"\bc_lhs % c_rhs\b", "VOPD(rem, c_lhs, c_rhs)", min_fire=1 if bothint else 0)
-    r.add("R9.vop_muleq", r"\*t_lhs \*= c_rhs;", "*t_lhs = (LT_)VOP(mul, *t_lhs, c_rhs);", min_fire=1)
-    r.add("R9.vop_diveq", r"\*t_lhs /= c_rhs;", "*t_lhs = (LT_)VOPD(div, *t_lhs, c_rhs);", min_fire=1)
-    r.add("R9.vop_remeq", r"\*t_lhs %= c_rhs;", "*t_lhs = (LT_)VOPD(rem, *t_lhs, c_rhs);", min_fire=1 if bothint else 0)
+    # casts to the template parameters (a right operand converted before the operation, for instance)
+    r.add("R6.cast_LHS", r"\((?:LHS)\)\(", "(LT_)(")
+    r.add("R6.cast_RHS", r"\((?:RHS)\)\(", "(RT_)(")
+    r.add("R9.vop_muleq", r"\*t_lhs \*= ([^;]+);", r"*t_lhs = (LT_)VOP(mul, *t_lhs, \1);", min_fire=1)
+    r.add("R9.vop_diveq", r"\*t_lhs /= ([^;]+);", r"*t_lhs = (LT_)VOPD(div, *t_lhs, \1);", min_fire=1)
+    r.add("R9.vop_remeq", r"\*t_lhs %= ([^;]+);", r"*t_lhs = (LT_)VOPD(rem, *t_lhs, \1);", min_fire=1 if bothint else 0)
     if not bothint:
         r.add("R9.vop_add", r"\bc_lhs \+ c_rhs\b", "VOP(add, c_lhs, c_rhs)", min_fire=1)
         r.add("R9.vop_sub", r"\bc_lhs - c_rhs\b", "VOP(sub, c_lhs, c_rhs)", min_fire=1)
-        r.add("R9.vop_addeq", r"\*t_lhs \+= c_rhs;", "*t_lhs = (LT_)VOP(add, *t_lhs, c_rhs);", min_fire=1)
-        r.add("R9.vop_subeq", r"\*t_lhs -= c_rhs;", "*t_lhs = (LT_)VOP(sub, *t_lhs, c_rhs);", min_fire=1)
+        r.add("R9.vop_addeq", r"\*t_lhs \+= ([^;]+);", r"*t_lhs = (LT_)VOP(add, *t_lhs, \1);", min_fire=1)
+        r.add("R9.vop_subeq", r"\*t_lhs -= ([^;]+);", r"*t_lhs = (LT_)VOP(sub, *t_lhs, \1);", min_fire=1)
     r.add("R9.const_var_cmp", r"\breturn const_var\((c_lhs (?:==|<|>|<=|>=|!=) c_rhs)\);", r"{ VERIF_RESULT_BOOL(out, \1); return; }", min_fire=6)
     r.add("R9.const_var", r"\breturn const_var\(([^;]+)\);", r"{ VERIF_RESULT(out, (\1)); return; }", min_fire=4)
     r.add("R9.return_lhs", r"\breturn t_bv;", "{ out->tag = T_lhsref; return; }", min_fire=5)
@@ -296,7 +299,7 @@ def build(prop, tier="quick"):
                 return b
 
             def post(body, ls=ls, rs=rs, lt=lt):
-                return body.replace("check_divide_by_zero_LS_RS(", "check_divide_by_zero_%s_%s(" % (ls, rs)).replace("(LT_)", "(%s)" % lt)
+                return body.replace("check_divide_by_zero_LS_RS(", "check_divide_by_zero_%s_%s(" % (ls, rs)).replace("(LT_)", "(%s)" % lt).replace("(RT_)", "(%s)" % rt)
 
             ops = [("mul", "*"), ("div", "/")] + ([("rem", "%")] if bothint else [("add", "+"), ("sub", "-")])
             kb.add("\n".join("VOP_DECL(%s, %s, %s, %s, %s, %s)" % (o, ls, rs, lt, rt, sym) for o, sym in ops))
